@@ -513,3 +513,110 @@ Proof. vm_compute. reflexivity. Qed.
 
 End GenAgreePvalues_C12.
 (* ---- PVALUES-APPENDIX:END ---- *)
+
+(*BEGIN ComposePublic_C12*)
+(* ==== COMPOSED PUBLIC THEOREMS (DESIGN 8.1: the composition of the translators' links, proved) ==== *)
+(* Generated by tools/gen_compose_appendix.py; do not edit between the markers.
+   [public_slice C p] (Proofs/ComposePublicSem.v) is the value of the public member p of cubepart._Slice computed
+   by the CHAIN OF GENERATED TERMS: the wiring term of p (Gen/WiringSrc.v, x_wiring) over the evaluation ([aeval]) of
+   the generated `_assemble_matrix` term (Gen/AssembleSrc.v, x_assemble) over the evaluations ([meval] / [meval_sq] /
+   [beval]) of the generated block terms of the measure (Gen/MeasureSrc.v, Gen/BasesSrc.v) -- each in the environment
+   in which the blocks of the measures it mentions are again evaluations of generated terms -- on the context
+   [Cs ..]: the four first-order arrays Model/CubeCounts.v::slice_counts extracts from the flat payload of
+   `tabulate S` ([survey_payload]), any subtotals / flags, any pair of in-range signed display orders.
+   [need b P] = P when every generated term named in b is available ([None] => True, like the GenAgree lemmas);
+   Cxx_public_terms_available: on this tree they all are.  The proofs use the GenAgree lemmas of the links as they
+   are (never unfolding a generated term) and Proofs/Compose*.v / Merge*.v for the last step to the respondents.
+   A change of MEANING of any generated term of a chain breaks the composed theorem of every member above it. *)
+From Coq Require String.
+From CC Require Spec.Merge Model.Subtotals Model.Proportions Proofs.MergeSurvey Proofs.ComposeBase Proofs.ComposePayload
+     Proofs.ComposePublicSem Proofs.ComposePublicLinks Proofs.ComposePublicSlice Proofs.ComposePublicCells Model.Zscore Proofs.ComposeZscore Proofs.ComposePublicChain4 Proofs.ComposePublicC12.
+Section ComposePublic_C12.   (* scopes and imports below end with the section *)
+Import Coq.Strings.String Coq.ZArith.ZArith CC.Spec.Merge CC.Model.Subtotals CC.Model.Proportions CC.Proofs.MergeSurvey
+       CC.Proofs.ComposeBase CC.Proofs.ComposePayload CC.Proofs.ComposePublicSem CC.Proofs.ComposePublicLinks
+       CC.Proofs.ComposePublicSlice CC.Proofs.ComposePublicCells CC.Model.Zscore CC.Proofs.ComposeZscore CC.Proofs.ComposePublicChain4 CC.Proofs.ComposePublicC12.
+Import Coq.Lists.List.ListNotations.
+Local Close Scope Q_scope.
+Local Open Scope string_scope.
+Local Open Scope nat_scope.
+
+
+(* the vocabulary of the statement ([survey_display]: C03_public_vocabulary, [base_cells_spec]: C11_public_vocabulary) *)
+Theorem C12_public_vocabulary :
+  forall S tv vr kr mr vc kc mc k r c x,
+     z_cell_spec S tv vr kr mr vc kc mc k r c x =
+     (let Cm := t_counts S tv vr kr mr vc kc mc k in
+      let RB := t_rb S tv vr kr mr vc kc mc k in
+      let CB := t_cb S tv vr kr mr vc kc mc k in
+      let TB := t_tb S tv vr kr mr vc kc mc k in
+      let wc := w_cell tv k vr kr mr vc kc mc S r c in
+      let wr := w_rowbase tv k vr kr mr vc kc mc S r c in
+      let wk := w_colbase tv k vr kr mr vc kc mc S r c in
+      let wt := w_tabbase tv k vr kr mr vc kc mc S r c in
+      (defective Cm = true -> x = NaN) /\
+      (defective Cm = false -> mall_eq TB RB = false -> mall_eq TB CB = false ->
+       (0 < wr)%Q -> (wr < wt)%Q -> (0 < wk)%Q -> (wk < wt)%Q ->
+       let e := (wr * wk / wt)%Q in
+       x =x= Fin ((wc - e) * Qabs.Qabs (wc - e) / (e * (1 - wr / wt) * (1 - wk / wt)))%Q)).
+Proof. exact (fun _ _ _ _ _ _ _ _ _ _ _ _ => eq_refl). Qed.
+Print Assumptions C12_public_vocabulary.
+
+(* _Slice.zscores, carried as the SIGNED SQUARE z*|z|, at a display cell showing base row r, base column c: NaN for a defective table, otherwise (interior cell, guards not firing) the residual formula in the respondent-level numbers. `self._is_defective` is the evaluation of its own generated term *)
+Theorem C12_public_Slice_zscores :
+  need terms_public_zscores
+  (forall S tv vr kr mr vc kc mc k rsubs csubs dn rd cd flag ro co so,
+     survey_display S tv vr kr mr vc kc mc k rsubs csubs ro co so ->
+     base_cells_spec (public_slice (Cs mr mc rsubs csubs dn rd cd flag ro co so) "zscores") ro co
+       (z_cell_spec S tv vr kr mr vc kc mc k)).
+Proof. exact compose_public_Slice_zscores. Qed.
+Print Assumptions C12_public_Slice_zscores.
+
+(* NON-VACUITY of the guards: every generated term the chains need is available on this tree *)
+Theorem C12_public_terms_available :
+  terms_public_zscores = true.
+Proof. exact eq_refl. Qed.
+Print Assumptions C12_public_terms_available.
+
+(* EXAMPLE: the survey, subtotal and display of the C03_public_* examples; display cell (0, 1) shows base row 1, base column 0 *)
+Example C12_public_Slice_zscores_example :
+  let S := [ mkResp [ACat 0; AMr [Sel; Oth]; ACat 0] (3 # 2);
+             mkResp [ACat 2; AMr [Sel; Mis]; ACat 1] 2;
+             mkResp [ACat 1; AMr [Sel; Sel]; ACat 0] 5;
+             mkResp [ACat 2; AMr [Oth; Sel]; ACat 1] (1 # 4);
+             mkResp [ACat 0; AMr [Oth; Oth]; ACat 2] 1 ] in
+  let mr := [false; true; false; false] in
+  let mc := [false; false] in
+  let rs := [mkSub [0; 2] []] in
+  let ro := [1; -1; 0]%Z in
+  let co := [1; 0]%Z in
+  match slice_counts (cube_dims None KCat mr KMr mc) (survey_payload None 0 KCat mr 1 KMr mc S) 0 with
+  | Some so =>
+      let P := public_slice (Cs mr mc rs [] false false false (fun _ => false) ro co so) "zscores" in
+      survey_display S None 0 KCat mr 1 KMr mc 0 rs [] ro co so /\
+      base_cells_spec P ro co (z_cell_spec S None 0 KCat mr 1 KMr mc 0) /\
+      pred P = PMat 3 2 [[Fin (11 # 4); Fin (3211 # 6300)]; [Fin (-11 # 4); Fin (-3211 # 6300)]; [Fin (-11 # 4); Fin (-3211 # 6300)]] /\
+      (let wc := w_cell None 0 0 KCat mr 1 KMr mc S 1 0 in let wr := w_rowbase None 0 0 KCat mr 1 KMr mc S 1 0 in let wk := w_colbase None 0 0 KCat mr 1 KMr mc S 1 0 in let wt := w_tabbase None 0 0 KCat mr 1 KMr mc S 1 0 in let e := wr * wk / wt in (wc - e) * Qabs.Qabs (wc - e) / (e * (1 - wr / wt) * (1 - wk / wt)) == 3211 # 6300)%Q
+  | None => False
+  end.
+Proof.
+  cbv zeta.
+  destruct (slice_counts (cube_dims None KCat [false; true; false; false] KMr [false; false])
+              (survey_payload None 0 KCat [false; true; false; false] 1 KMr [false; false] _) 0) as [so|] eqn:E;
+    [|vm_compute in E; discriminate].
+  assert (D : survey_display
+                [ mkResp [ACat 0; AMr [Sel; Oth]; ACat 0] (3 # 2); mkResp [ACat 2; AMr [Sel; Mis]; ACat 1] 2;
+                  mkResp [ACat 1; AMr [Sel; Sel]; ACat 0] 5; mkResp [ACat 2; AMr [Oth; Sel]; ACat 1] (1 # 4);
+                  mkResp [ACat 0; AMr [Oth; Oth]; ACat 2] 1 ]
+                None 0 KCat [false; true; false; false] 1 KMr [false; false] 0 [mkSub [0; 2] []] []
+                [1; -1; 0]%Z [1; 0]%Z so).
+  { split; [exact I|]. split; [left; reflexivity|]. split; [right; reflexivity|]. split; [vm_compute; lia|].
+    split; [repeat constructor; discriminate|]. split; [vm_compute; lia|]. split; [vm_compute; lia|].
+    split; [exact E|]. split; repeat constructor; vm_compute; discriminate. }
+  split; [exact D|].
+  split; [exact (need_elim _ _ eq_refl C12_public_Slice_zscores _ _ _ _ _ _ _ _ _ _ _ _ _ _ _ _ _ _ D)|].
+  vm_compute in E. injection E as <-.
+  split; [vm_compute; reflexivity|]. vm_compute; reflexivity.
+Qed.
+
+End ComposePublic_C12.
+(*END ComposePublic_C12*)
